@@ -103,7 +103,7 @@ def genbbsub_closure(db, keep_real):
     return real, stubs
 
 
-def build_c06_query(db, prog, name, levels, known_where=()):
+def build_c06_query(db, prog, name, levels, known_where=(), known_where7=()):
     T = db['types']
     fr = f77c.genbb_init_function(prog, name)
     real, stubs = genbbsub_closure(db, ('decay0_emass', 'electron_mass_MeV', 'particle_mass_MeV'))
@@ -162,6 +162,21 @@ def build_c06_query(db, prog, name, levels, known_where=()):
             sp = {'0+': 0, '2+': 2}.get(spin)
             spc = (' && pars.bx_base_enrange.itrans02 == %d' % sp) if sp is not None else ''
             H.append('    __CPROVER_assert(ilevel != %d || (pars.bx_base_enrange.levelE == %d%s), "%s: level %d is %s at %d keV (README Appendix 1)");' % (i, kev, spc, tag, i, spin, kev))
+    H.append('  }')
+    # C07: the configuration alone determines what initialisation leaves behind: a second bbpars with arbitrary other
+    # contents (any history) ends in the same state
+    kw7 = ' || '.join('(%s)' % w for w in known_where7)
+    H.append('  { struct bbpars pars2; int ier2 = nondet_int();')
+    H.append('    genbbsub(&rng, &ev, 1, &nm, ilevel, modebb, -1, &ier2, &pars2);')
+    H.append('    __CPROVER_assert(ier2 == ier_x, "C07 %s: accept/reject does not depend on what the parameter block held before");' % name)
+    c7 = ('pars2.Qbb == pars.Qbb && pars2.Zdbb == pars.Zdbb && pars2.Adbb == pars.Adbb && pars2.EK == pars.EK && '
+          'pars2.bx_base_enrange.levelE == pars.bx_base_enrange.levelE && pars2.bx_base_enrange.itrans02 == pars.bx_base_enrange.itrans02 && '
+          'pars2.modebb == pars.modebb && pars2.istartbb == pars.istartbb')
+    if kw7:
+        H.append('    if (ier2 == 0 && ier_x == 0) { __CPROVER_assert((%s) || (%s), "C07 %s: every field read by generation is (re)written by initialisation");' % (kw7, c7, name))
+        H.append('      __CPROVER_assert(!(%s) || (%s), "C07 %s: every field read by generation is (re)written by initialisation [where %s]"); }' % (kw7, c7, name, ','.join(known_where7)))
+    else:
+        H.append('    if (ier2 == 0 && ier_x == 0) __CPROVER_assert(%s, "C07 %s: every field read by generation is (re)written by initialisation");' % (c7, name))
     H.append('  }')
     H.append('  __CPROVER_assert(0, "canary %s: harness end is reachable (must be refuted)");' % name)
     H.append('}')
